@@ -281,6 +281,54 @@ def _run(ctx):
     out, st = probe(ctx, "store(compute=False)", lazy_store)
     if st == "error":
         ctx.fail("lazy-store-creates-target", "store/to_zarr with compute=False created the target or failed", {"call": "store(compute=False)"})
+    # storage-backed inputs: wrapping a user's Zarr array (with or without an explicit dtype / chunks) and building on it must not read
+    # any of its data chunks before an entry point runs (metadata reads are not data)
+    def input_reads(e, how):
+        import zarr
+        from harness.tracing_store import Trace, TracingStore, is_chunk_key
+
+        tr = Trace()
+        ist = TracingStore(zarr.storage.MemoryStore(), tr)
+        z = zarr.create_array(store=ist, shape=(6, 4), dtype="int32", chunks=(2, 2))
+        z[...] = np.arange(24, dtype="int32").reshape(6, 4)
+        tr.events.clear()
+        spec = e.spec
+        if how == "asarray":
+            a = xp.asarray(z, spec=spec)
+        elif how == "asarray-dtype":
+            a = xp.asarray(z, dtype=xp.float64, spec=spec)
+        elif how == "asarray-same-dtype":
+            a = xp.asarray(z, dtype=xp.int32, spec=spec)
+        elif how == "from_array":
+            a = cubed.from_array(z, spec=spec)
+        elif how == "from_array-chunks":
+            a = cubed.from_array(z, chunks=(2, 4), spec=spec)
+        elif how == "from_zarr":
+            a = cubed.from_zarr(ist, spec=spec)
+        else:
+            a = cubed.from_zarr(z, spec=spec) if how == "from_zarr-array" else xp.asarray(z, spec=spec)
+        b = xp.sum(xp.add(a, a), axis=0)
+        b.plan()
+        try:
+            b.visualize(filename=os.path.join(e.tmp, "g"), show_hidden=True)
+        except Exception:
+            pass
+        reads = [ev[2] for ev in tr.events if ev[1] == "get" and not ev[2].endswith("zarr.json") and (ev[2] == "c" or ev[2].startswith("c/") or "/c/" in ev[2])]
+        assert not reads, f"{how}: {len(reads)} data chunks of the INPUT array were read while building / planning: {reads[:4]}"
+        return b
+    for how in ["asarray", "asarray-dtype", "asarray-same-dtype", "from_array", "from_array-chunks", "from_zarr", "from_zarr-array"]:
+        out, st = probe(ctx, f"build-on-zarr-input:{how}", lambda e, how=how: input_reads(e, how))
+        if st == "error":
+            try:
+                env2 = Env(ctx.rng)
+                try:
+                    input_reads(env2, how)
+                finally:
+                    env2.close()
+            except AssertionError as ex:
+                ctx.fail(f"lazy-call-reads-input:{how}", str(ex), {"call": f"build-on-zarr-input:{how}"})
+            except Exception:
+                ctx.count("zarr-input-declined:" + how)
     # compositions
     fns = [n for n, t in table.items() if t in ("f(a)", "f(a,b)", "f(a,axis=0)") and n.startswith("xp.")]
     for _ in range(ctx.n(30, 400)):
